@@ -36,7 +36,9 @@ type witness struct {
 	Ponder bool   `json:"ponder,omitempty"`
 }
 
-const margin = 30
+// margin is the engine's own safety margin (an exported constant of the driver): the property asks
+// that *the* margin is kept, not that it has a particular value; it must be positive though.
+const margin int64 = uci.TimeSafetyMargin
 
 func (c clock) own() (r, inc int64) {
 	if c.Black {
@@ -352,6 +354,9 @@ func randClock(rng *rand.Rand) clock {
 
 func TestCheck(t *testing.T) {
 	r := ev.Start("C14")
+	if margin <= 0 {
+		r.Violation("C14:no-safety-margin", witness{Kind: "constant"}, fmt.Sprintf("uci.TimeSafetyMargin = %d: there is no safety margin to keep", margin))
+	}
 	if r.Replay != "" {
 		var w witness
 		if err := ev.ReadReplay(r.Replay, &w); err != nil {
